@@ -60,7 +60,10 @@ func runC01(c *vkit.Ctx, i int, h *History) {
 	s.RunProcess(r, h, vkit.Mode{}, r.IntN(2) == 0, nil, func(o Op, res StepResult) bool {
 		c.Count("record_calls", 1)
 		c.Count("record_outcome_"+res.Got, 1)
-		if len(res.Problems) > 0 {
+		// premise of C01: the run recorded (every call got the outcome the model gives).
+		// How the recording looks on disk is deliberately NOT part of the premise: a
+		// recording that is stored wrongly is exactly what a later replay must expose.
+		if res.Got != res.Expected {
 			ok = false
 			premise = res.Problems[0]
 			return false
